@@ -77,14 +77,19 @@ Content(S) == {q \in S : ~(q[1] \in UKeyLeaf /\ q[2] = "key" /\ \E r \in S : r[1
 Same(A, B) == Content(JsonView(A)) = Content(JsonView(B))
 \* a presence container that keeps a child on the device exists there already, implied by that child: restating it
 \* or not denotes the same write (proto restates it when its owner changes, JSON/XML show it only through children)
+\* ... and so does one the device holds explicitly: an XML document has to name the container to delete a leaf below it
 Restated(S, c, dv) == {q \in S : q[2] = "e:"
-                                  /\ \E x \in DOMAIN dv : x \notin SeqRange(c.del) /\ x \in AllLeaf /\ UPresenceParent[x] = q[1]}
+                                  /\ \/ \E x \in DOMAIN dv : x \notin SeqRange(c.del) /\ x \in AllLeaf /\ UPresenceParent[x] = q[1]
+                                     \/ (q[1] \in DOMAIN dv /\ q[1] \notin SeqRange(c.del))}
 SameW(A, B, c, dv) == Same(A \ Restated(A, c, dv), B \ Restated(B, c, dv))
 \* what an XML document deletes: the deleted elements plus, below an element with operation="replace", everything it does not restate
 XmlDel(x) == SeqRange(x.del) \cup (SeqRange(x.replaceleaves) \ {q[1] : q \in Pairs(x.upd)})
 \* the key elements of a list entry in which the document deletes something address that delete
-XmlUpd(x) == {q \in Pairs(x.upd) : ~(q[1] \in UKeyLeaf /\ q[2] = "key"
-                                     /\ \E dl \in XmlDel(x) : dl \in AllLeaf /\ UEntryOf[dl] = UEntryOf[q[1]])}
+\* (writing the key leaves of an entry in which something is deleted is no write at all - the entry exists -, so such key
+\*  pairs are left out on both sides: proto restates them as updates when their owner changes, XML cannot tell the two apart)
+NoAddrKeys(S, x) == {q \in S : ~(q[1] \in UKeyLeaf /\ q[2] = "key"
+                                 /\ \E dl \in XmlDel(x) : dl \in AllLeaf /\ UEntryOf[dl] = UEntryOf[q[1]])}
+XmlUpd(x) == NoAddrKeys(Pairs(x.upd), x)
 XmlOpsOK(x) == LET del == IF x.opts[3] THEN "remove" ELSE "delete"
                    ok == IF x.opts[2] THEN {"nc:" \o del} ELSE {del}
                IN (SeqRange(x.ops) \ {"replace", "nc:replace"}) \subseteq ok
@@ -95,7 +100,7 @@ EncClauses(c, dv) ==
   IN {<<"C10", "RenderingsSucceed", Len(c.enc.errs) = 0 /\ \A x \in X : x.err = "">>,
       <<"C10", "JsonSameUpd", SameW(Pairs(c.enc.json), pu, c, dv)>>,
       <<"C10", "JsonIetfSameUpd", SameW(Pairs(c.enc.ietf), pu, c, dv)>>,
-      <<"C10", "XmlSameUpd", \A x \in X : SameW(XmlUpd(x), pu, c, dv)>>,
+      <<"C10", "XmlSameUpd", \A x \in X : SameW(XmlUpd(x), NoAddrKeys(pu, x), c, dv)>>,
       <<"C10", "XmlSameDel", \A x \in X : XmlDel(x) = pd>>,
       <<"C10", "XmlNamespaces", \A x \in X : x.opts[1] => x.nsok>>,
       <<"C10", "XmlKeysFirst", \A x \in X : x.keysfirst>>,
